@@ -100,44 +100,20 @@ theorem formatTableName_eq (k : Kind) (r : Str → Bool) (g : Tgt) (extra : List
     have : schemaNames g ++ g.t :: e :: es = (schemaNames g ++ [g.t]) ++ (e :: es) := by simp
     rw [this, dottedNames_append k r _ _ (by simp) (by simp), key]
 
-theorem schemaOf_eq (g : Tgt) : schemaOf g = (schemaGiven g.schema).map (·.s) := by
-  unfold schemaOf schemaGiven
+theorem schemaNames_s (g : Tgt) : (schemaNames g).map (·.s) = schemaParts g := by
+  unfold schemaNames schemaParts schemaPartsOf schemaGiven
   cases g.schema with
   | none => rfl
-  | some n => by_cases h : n.s.isEmpty = true <;> simp [h]
-
-theorem refOk_append (parts extra : List Str) :
-    refOk (if parts.isEmpty then none else some (joinDot parts)) extra (parts ++ extra) = true := by
-  unfold refOk
-  cases parts with
-  | nil => simp
-  | cons p ps =>
-    simp only [List.isEmpty_cons, Bool.false_eq_true, if_false, List.length_append, List.length_cons,
-      Bool.and_eq_true, decide_eq_true_eq, beq_iff_eq]
-    have e : ps.length + 1 + extra.length - extra.length = (p :: ps).length := by simp
-    refine ⟨⟨by omega, ?_⟩, by omega, ?_⟩
-    · rw [e]; simp
-    · rw [e]; simp
+  | some n =>
+    by_cases h : n.s.isEmpty = true
+    · simp [h]
+    · by_cases hq : n.qn.isSome = true
+      · simp [h, hq]
+      · simp [h, hq, Function.comp_def]
 
 theorem tableItemOk (g : Tgt) (extra : List Name) :
-    refOk (schemaOf g) (g.t.s :: extra.map (·.s)) ((schemaNames g ++ g.t :: extra).map (·.s)) = true := by
-  have h := refOk_append ((schemaNames g).map (·.s)) (g.t.s :: extra.map (·.s))
-  have e : (if ((schemaNames g).map (·.s)).isEmpty then none else some (joinDot ((schemaNames g).map (·.s)))) = schemaOf g := by
-    rw [schemaOf_eq]
-    unfold schemaNames
-    cases hs : schemaGiven g.schema with
-    | none => simp
-    | some s =>
-      by_cases hq : s.qn.isSome = true
-      · simp [hq, joinDot]
-      · have hne := splitDot_ne_nil s.s
-        simp only [hq, Bool.false_eq_true, if_false, List.map_map, Option.map_some]
-        have : (List.map ((fun x => x.s) ∘ fun p => ({ s := p } : Name)) (splitDot s.s)) = splitDot s.s := by
-          simp [Function.comp_def]
-        rw [this, joinDot_splitDot]
-        simp [hne]
-  rw [e] at h
-  simpa using h
+    refOk (schemaParts g) (g.t.s :: extra.map (·.s)) ((schemaNames g ++ g.t :: extra).map (·.s)) = true := by
+  simp [refOk, schemaNames_s]
 
 /-- well-formedness of table + schema for dialect `k` -/
 structure TgtOK (k : Kind) (g : Tgt) : Prop where
@@ -147,9 +123,9 @@ structure TgtOK (k : Kind) (g : Tgt) : Prop where
 /-! ## the pieces of Alembic's statements -/
 
 def L (m s : String) : Piece := .lit m.toList s.toList
-def tblP (g : Tgt) : Piece := .chain (schemaNames g ++ [g.t]) (.ref (schemaOf g) [g.t.s])
-def tblColP (g : Tgt) (col : Name) : Piece := .chain (schemaNames g ++ [g.t, col]) (.ref (schemaOf g) [g.t.s, col.s])
-def nameP (n : Name) : Piece := .chain [n] (.ref none [n.s])
+def tblP (g : Tgt) : Piece := .chain (schemaNames g ++ [g.t]) (.ref (schemaParts g) [g.t.s])
+def tblColP (g : Tgt) (col : Name) : Piece := .chain (schemaNames g ++ [g.t, col]) (.ref (schemaParts g) [g.t.s, col.s])
+def nameP (n : Name) : Piece := .chain [n] (.ref [] [n.s])
 
 theorem render_tblP (k : Kind) (r : Str → Bool) (g : Tgt) : renderP k r (tblP g) = formatTableName k r g.t g.schema := by
   simpa [renderP, tblP] using formatTableName_eq k r g []
